@@ -21,6 +21,8 @@ package main
 import (
 	"context"
 	"fmt"
+	"sync"
+	"sync/atomic"
 	"strings"
 	"time"
 
@@ -54,6 +56,35 @@ func (s *metricsSuite) do(t []string) string {
 			return "emit bad-args"
 		}
 		return s.emit(pos[1], pos[2], pos[3], opts["bad"])
+	case "burst":
+		// burst <kind> <name> <labels|-> <goroutines> <rounds>: in every round a NEW metric name is emitted for the
+		// first time by all goroutines at once (released together): concurrent first use must not panic
+		if len(pos) != 6 {
+			return "burst bad-args"
+		}
+		n, rounds := atoi(pos[4]), atoi(pos[5])
+		var panics, errs int64
+		for r := 0; r < rounds; r++ {
+			name := fmt.Sprintf("%s.r%d", pos[2], r)
+			start := make(chan struct{})
+			var wg sync.WaitGroup
+			for g := 0; g < n; g++ {
+				wg.Add(1)
+				go func() {
+					defer wg.Done()
+					<-start
+					switch out := s.emit(pos[1], name, pos[3], ""); {
+					case strings.HasSuffix(out, "PANIC"):
+						atomic.AddInt64(&panics, 1)
+					case !strings.HasSuffix(out, " ok"):
+						atomic.AddInt64(&errs, 1)
+					}
+				}()
+			}
+			close(start)
+			wg.Wait()
+		}
+		return fmt.Sprintf("burst %s panics=%d errs=%d", pos[1], panics, errs)
 	case "watchend":
 		wait := 3000 * time.Millisecond
 		if v, ok := opts["wait"]; ok {
